@@ -19,8 +19,9 @@ def driver_line(op):
     k = op["op"]
     if k in ("seal", "raw", "full"):
         return {"op": k, "n": op["n"]}
-    if k == "failseal":
-        return None   # not sent to the model (which nodes a failing seal leaves sealed is not modelled)
+    if k in ("failseal", "del", "xbypass"):
+        return None   # not sent to the model (which nodes a failing seal leaves sealed is not modelled; `del` and the internal
+        #               `set(bypass=True)` are no operations of the model: a `del` must be rejected, the other is an observation)
     if k == "set":
         return {"op": "set", "n": op["n"], "name": op["pyname"].encode().hex(), "v": op["v"]}
     if k == "setmeta":
